@@ -154,7 +154,7 @@ func formatByName(n string) *formatDef {
 	return nil
 }
 
-const itemCap = 4000
+const itemCap = 20000
 
 // collect runs a reader to the end (or to cap items) without ever stopping it.
 func collect(run func(visit func(gItem) bool) (int, bool)) (items []gItem, capped bool, panicked bool) {
